@@ -36,6 +36,8 @@ fn prop(id: &str) -> Option<&'static Property> {
 struct Args {
     pos: Vec<String>,
     runs: Option<u64>,
+    from: u64,
+    isolate: bool,
     threads: usize,
     seed: u64,
     root: String,
@@ -45,6 +47,8 @@ fn parse_args() -> Result<Args, String> {
     let mut a = Args {
         pos: vec![],
         runs: None,
+        from: 0,
+        isolate: false,
         threads: std::thread::available_parallelism().map(|n| n.get()).unwrap_or(4),
         seed: match std::env::var("VERIF_SEED") {
             Ok(s) if !s.trim().is_empty() => s
@@ -59,6 +63,8 @@ fn parse_args() -> Result<Args, String> {
     while let Some(x) = it.next() {
         match x.as_str() {
             "--runs" => a.runs = Some(it.next().ok_or("--runs N")?.parse().map_err(|_| "--runs N")?),
+            "--isolate" => a.isolate = true,
+            "--from" => a.from = it.next().ok_or("--from N")?.parse().map_err(|_| "--from N")?,
             "--threads" => a.threads = it.next().ok_or("--threads N")?.parse().map_err(|_| "--threads N")?,
             "--seed" => a.seed = it.next().ok_or("--seed N")?.parse().map_err(|_| "--seed N")?,
             "--root" => a.root = it.next().ok_or("--root DIR")?,
@@ -90,7 +96,14 @@ fn real_main() -> Result<i32, String> {
         Some("replay") => cmd_replay(&a),
         Some("digests") => cmd_digests(&a),
         Some("genreplay") => cmd_genreplay(&a),
-        _ => Err("usage: simio run|replay|digests|genreplay …".into()),
+        Some("crashfile") => cmd_crashfile(&a),
+        Some("plan") => {
+            let p = get_prop(&a, 1)?;
+            let thorough = a.pos.get(2).map(|s| s.as_str()) == Some("thorough");
+            println!("{}", a.runs.unwrap_or(if thorough { p.thorough_runs } else { p.quick_runs }));
+            Ok(0)
+        }
+        _ => Err("usage: simio run|replay|digests|genreplay|crashfile …".into()),
     }
 }
 
@@ -110,6 +123,7 @@ fn cmd_digests(a: &Args) -> Result<i32, String> {
     let p = get_prop(a, 1)?;
     let cfg = BatchCfg {
         seed: a.seed,
+        from: a.from,
         runs: a.runs.unwrap_or(20_000),
         threads: a.threads,
         per_run_digests: true,
@@ -145,6 +159,26 @@ fn cmd_genreplay(a: &Args) -> Result<i32, String> {
     let (n, bad) = genreplay(p, a.seed, a.runs.unwrap_or(2000));
     println!("genreplay {}: {} runs, {} mismatches {:?}", p.id, n, bad.len(), &bad[..bad.len().min(10)]);
     Ok(if bad.is_empty() { 0 } else { 2 })
+}
+
+/// `simio crashfile <PROP> <tier> --from <run>`: write a replay file for a run that makes the
+/// whole process die (abort, stack overflow, allocation failure) — found by `check`'s bisection.
+fn cmd_crashfile(a: &Args) -> Result<i32, String> {
+    let p = get_prop(a, 1)?;
+    let tier = a.pos.get(2).map(|s| s.as_str()).unwrap_or("quick");
+    let table = p.table();
+    let sc = &p.scenarios[table[(a.from % table.len() as u64) as usize]];
+    let dir = format!("{}/replays/{}", a.root, p.id);
+    std::fs::create_dir_all(&dir).map_err(|e| format!("{}: {}", dir, e))?;
+    let path = format!("{}/{}-s{}-r{}.json", dir, p.panic_clause.replace('.', "_"), a.seed, a.from);
+    let v = json!({
+        "property": p.id, "scenario": sc.name, "clause": p.panic_clause, "seed": a.seed, "run": a.from,
+        "choices": Value::Null, "tier": tier,
+        "message": "the process running this simulated run terminated abnormally (abort / stack overflow / allocation failure) instead of finishing or unwinding",
+    });
+    std::fs::write(&path, serde_json::to_string_pretty(&v).unwrap()).map_err(|e| format!("{}: {}", path, e))?;
+    println!("VIOLATION property={} replay={}", p.id, path);
+    Ok(1)
 }
 
 fn cmd_replay(a: &Args) -> Result<i32, String> {
@@ -200,6 +234,7 @@ fn cmd_run(a: &Args) -> Result<i32, String> {
     let replay_dir = format!("{}/replays", a.root);
     let cfg = BatchCfg {
         seed: a.seed,
+        from: a.from,
         runs,
         threads: a.threads,
         per_run_digests: false,
@@ -218,6 +253,10 @@ fn cmd_run(a: &Args) -> Result<i32, String> {
         return Err("the harness itself panicked; nothing this run reports is to be believed".into());
     }
 
+    if a.isolate {
+        // crash isolation (driven by /verif/check): only the exit status of this range matters
+        return Ok(if agg.violations.is_empty() { 0 } else { 1 });
+    }
     // determinism self-check, in-process part (the cross-process part is `check selftest`)
     let det_n = if tier == "quick" { 1500 } else { 6000 };
     let (det_runs, det_bad) = genreplay(p, a.seed, det_n.min(runs));
